@@ -136,6 +136,112 @@ class EvalProp(Prop):
         replay_generic(self, ctx, res, v, self.project, self.what)
 
 
+def chain_below(v):
+    """the containers below (and including) v, pre-order, objects in ascending key order"""
+    out = []
+    if v[0] == 'a':
+        out.append(v)
+        for x in v[1]:
+            out += chain_below(x)
+    elif v[0] == 'o':
+        out.append(v)
+        for _, x in sorted(v[1], key=lambda kv: kv[0]):
+            out += chain_below(x)
+    return out
+
+
+def gen_chain(g):
+    """a document and a path of steps written as Coq's chain_path writes them: (doc, text, spec for keyc, values reached)"""
+    r = g.r
+    doc = g.doc(3, False, 0)
+    cur, text, spec = [doc], '$', []
+    for _ in range(r.randint(1, 4)):
+        rec = r.random() < 0.25
+        if rec:
+            cur = [c1 for v in cur for c1 in chain_below(v)]
+        conts = [v for v in cur if v[0] in 'ao']
+        k = r.random()
+        if k < 0.3 or not conts:
+            dotw = r.random() < 0.5
+            text += ('..*' if dotw else '..[*]') if rec else ('.*' if dotw else '[*]')
+            spec.append((4, 2 if dotw else 3, []) if rec else ((2, []) if dotw else (3, [])))
+            nxt = []
+            for v in cur:
+                if v[0] == 'o':
+                    nxt += [x for _, x in sorted(v[1], key=lambda kv: kv[0])]
+                elif v[0] == 'a':
+                    nxt += list(v[1])
+            cur = nxt
+            continue
+        c0 = r.choice(conts)
+        if c0[0] == 'a' and r.random() < 0.35:
+            # a union of signed indexes, slices and wildcards (the first subscript not the wildcard)
+            subs, texts = [], []
+            for j in range(r.randint(1, 3)):
+                kind = r.choice('iis' if j == 0 else 'iisw')
+                if kind == 'i':
+                    n_ = r.randint(-len(c0[1]) - 1, len(c0[1]) + 1)
+                    t_ = ('+' if n_ >= 0 and r.random() < 0.15 else '') + str(n_)
+                    subs.append(('i', [ord(ch) for ch in t_], n_))
+                    texts.append(t_)
+                elif kind == 'w':
+                    subs.append(('w',))
+                    texts.append('*')
+                else:
+                    bs = [r.choice([None, None, r.randint(-4, 4)]) for _ in range(3)]
+                    three = r.random() < 0.6
+                    t_ = ':'.join('' if b_ is None else str(b_) for b_ in (bs if three else bs[:2]))
+                    subs.append(('s', [ord(ch) for ch in ('' if bs[0] is None else str(bs[0]))], [ord(ch) for ch in ('' if bs[1] is None else str(bs[1]))],
+                                 ([ord(ch) for ch in ('' if bs[2] is None else str(bs[2]))] if three else None), bs, three))
+                    texts.append(t_)
+            text += ('..' if rec else '') + '[' + ','.join(texts) + ']'
+            spec.append((4, 6, [sb[:4] if sb[0] == 's' else sb[:2] if sb[0] == 'i' else sb for sb in subs]) if rec else
+                        (6, [sb[:4] if sb[0] == 's' else sb[:2] if sb[0] == 'i' else sb for sb in subs]))
+            nxt = []
+            for v in cur:
+                if v[0] != 'a':
+                    continue
+                ln = len(v[1])
+                for sb in subs:
+                    if sb[0] == 'i':
+                        idxs = py_index_ref(ln, sb[2])
+                    elif sb[0] == 'w':
+                        idxs = list(range(ln))
+                    else:
+                        bs, three = sb[4], sb[5]
+                        idxs = py_slice_ref(ln, bs[0], bs[1], 1 if (not three or bs[2] is None) else bs[2])
+                    nxt += [v[1][j2] for j2 in idxs]
+            cur = nxt
+            continue
+        if c0[0] == 'a':
+            n_ = r.randint(0, len(c0[1]) + 1)
+            digits = ('0' * r.choice([0, 0, 1])) + str(n_)
+            text += ('..' if rec else '') + '[' + digits + ']'
+            cps_ = [ord(ch) for ch in digits]
+            spec.append((4, 1, cps_) if rec else (1, cps_))
+            cur = [v[1][n_] for v in cur if v[0] == 'a' and n_ < len(v[1])]
+        else:
+            kb = r.choice(c0[1])[0] if c0[1] and r.random() < 0.85 else b'zz9'
+            key = kb.decode('utf-8')
+            dot = gens.esc_dot(kb)
+            style = r.choice("'\"." if dot is not None else "'\"")
+            cps_ = [ord(ch) for ch in key]
+            if style == '.':
+                text += ('..' if rec else '.') + dot.decode('utf-8')
+                spec.append((4, 0, cps_) if rec else (0, cps_))
+            else:
+                body = ''.join('\\' + ch if ch in (style, '\\') else ('\\u%04x' % ord(ch) if ord(ch) < 0x20 else ch) for ch in key)
+                text += ('..' if rec else '') + '[' + style + body + style + ']'
+                spec.append((4, ord(style), cps_) if rec else (ord(style), cps_))
+            nxt = []
+            for v in cur:
+                if v[0] == 'o':
+                    hit = [x for kk, x in v[1] if kk == kb]
+                    nxt += hit[-1:]
+            cur = nxt
+    return doc, text, spec, cur
+
+
 # =======================================================================================
 @register
 class C01(EvalProp):
@@ -173,105 +279,8 @@ class C01(EvalProp):
         the text, the expected values come from walking the document in the harness (no syntax tree involved)"""
         r = g.r
         cases, want = [], {}
-        def below(v):
-            """the containers below (and including) v, pre-order, objects in ascending key order"""
-            out = []
-            if v[0] == 'a':
-                out.append(v)
-                for x in v[1]:
-                    out += below(x)
-            elif v[0] == 'o':
-                out.append(v)
-                for _, x in sorted(v[1], key=lambda kv: kv[0]):
-                    out += below(x)
-            return out
         for i in range(ctx.n(600, 6000) * budget_scale):
-            doc = g.doc(3, False, 0)
-            cur, text, spec = [doc], '$', []
-            for _ in range(r.randint(1, 4)):
-                rec = r.random() < 0.25
-                if rec:
-                    cur = [c1 for v in cur for c1 in below(v)]
-                conts = [v for v in cur if v[0] in 'ao']
-                k = r.random()
-                if k < 0.3 or not conts:
-                    dotw = r.random() < 0.5
-                    text += ('..*' if dotw else '..[*]') if rec else ('.*' if dotw else '[*]')
-                    spec.append((4, 2 if dotw else 3, []) if rec else ((2, []) if dotw else (3, [])))
-                    nxt = []
-                    for v in cur:
-                        if v[0] == 'o':
-                            nxt += [x for _, x in sorted(v[1], key=lambda kv: kv[0])]
-                        elif v[0] == 'a':
-                            nxt += list(v[1])
-                    cur = nxt
-                    continue
-                c0 = r.choice(conts)
-                if c0[0] == 'a' and r.random() < 0.35:
-                    # a union of signed indexes, slices and wildcards (the first subscript not the wildcard)
-                    subs, texts = [], []
-                    for j in range(r.randint(1, 3)):
-                        kind = r.choice('iis' if j == 0 else 'iisw')
-                        if kind == 'i':
-                            n_ = r.randint(-len(c0[1]) - 1, len(c0[1]) + 1)
-                            t_ = ('+' if n_ >= 0 and r.random() < 0.15 else '') + str(n_)
-                            subs.append(('i', [ord(ch) for ch in t_], n_))
-                            texts.append(t_)
-                        elif kind == 'w':
-                            subs.append(('w',))
-                            texts.append('*')
-                        else:
-                            bs = [r.choice([None, None, r.randint(-4, 4)]) for _ in range(3)]
-                            three = r.random() < 0.6
-                            t_ = ':'.join('' if b_ is None else str(b_) for b_ in (bs if three else bs[:2]))
-                            subs.append(('s', [ord(ch) for ch in ('' if bs[0] is None else str(bs[0]))], [ord(ch) for ch in ('' if bs[1] is None else str(bs[1]))],
-                                         ([ord(ch) for ch in ('' if bs[2] is None else str(bs[2]))] if three else None), bs, three))
-                            texts.append(t_)
-                    text += ('..' if rec else '') + '[' + ','.join(texts) + ']'
-                    spec.append((4, 6, [sb[:4] if sb[0] == 's' else sb[:2] if sb[0] == 'i' else sb for sb in subs]) if rec else
-                                (6, [sb[:4] if sb[0] == 's' else sb[:2] if sb[0] == 'i' else sb for sb in subs]))
-                    nxt = []
-                    for v in cur:
-                        if v[0] != 'a':
-                            continue
-                        ln = len(v[1])
-                        for sb in subs:
-                            if sb[0] == 'i':
-                                idxs = py_index_ref(ln, sb[2])
-                            elif sb[0] == 'w':
-                                idxs = list(range(ln))
-                            else:
-                                bs, three = sb[4], sb[5]
-                                idxs = py_slice_ref(ln, bs[0], bs[1], 1 if (not three or bs[2] is None) else bs[2])
-                            nxt += [v[1][j2] for j2 in idxs]
-                    cur = nxt
-                    continue
-                if c0[0] == 'a':
-                    n_ = r.randint(0, len(c0[1]) + 1)
-                    digits = ('0' * r.choice([0, 0, 1])) + str(n_)
-                    text += ('..' if rec else '') + '[' + digits + ']'
-                    cps_ = [ord(ch) for ch in digits]
-                    spec.append((4, 1, cps_) if rec else (1, cps_))
-                    cur = [v[1][n_] for v in cur if v[0] == 'a' and n_ < len(v[1])]
-                else:
-                    kb = r.choice(c0[1])[0] if c0[1] and r.random() < 0.85 else b'zz9'
-                    key = kb.decode('utf-8')
-                    dot = gens.esc_dot(kb)
-                    style = r.choice("'\"." if dot is not None else "'\"")
-                    cps_ = [ord(ch) for ch in key]
-                    if style == '.':
-                        text += ('..' if rec else '.') + dot.decode('utf-8')
-                        spec.append((4, 0, cps_) if rec else (0, cps_))
-                    else:
-                        body = ''.join('\\' + ch if ch in (style, '\\') else ('\\u%04x' % ord(ch) if ord(ch) < 0x20 else ch) for ch in key)
-                        text += ('..' if rec else '') + '[' + style + body + style + ']'
-                        spec.append((4, ord(style), cps_) if rec else (ord(style), cps_))
-                    nxt = []
-                    for v in cur:
-                        if v[0] == 'o':
-                            hit = [x for kk, x in v[1] if kk == kb]
-                            nxt += hit[-1:]
-                    cur = nxt
+            doc, text, spec, cur = gen_chain(g)
             nodollar = spec[0][0] != 4 and r.random() < 0.25
             if nodollar:
                 # C18_dollar_optional: the same path without its leading $ (a first dot name loses its dot, .* becomes *)
@@ -2011,6 +2020,89 @@ class C14(Prop):
                 if len(res.samples) < 5:
                     res.sample({'path': c.path.decode('utf-8', 'replace'), 'doc': core.doc_json_text(c.docs[0])[:200], 'calls': g_.get('C0', '')[:300], 'result': r0[:200]})
             res.dist[cls_of(r0 or 'P')] += 1
+
+        self.from_text(ctx, res, g, budget_scale)
+
+    def from_text(self, ctx, res, g, budget_scale):
+        """C14_functions_from_text / C14_calls_from_text: steps written as Coq's chain_path, then registered filter functions
+        (the driver confirms the text is chain_fun_path of them); the calls and the results expected come from walking the
+        document in the harness: for each value the steps reach, in order, f on it, then the next function on what f
+        returned, until one fails"""
+        r = g.r
+        def apply(name, v):
+            if name == 'twice':
+                return ('n', v[1] * 2) if v[0] == 'n' else None
+            if name == 'wrap':
+                return ('a', [v])
+            if name == 'tn':
+                return ('s', GO_TYPE[v[0]])
+            if name == 'fstr':
+                return None if v[0] == 's' else v
+            if name == 'id':
+                return v
+            return None
+        cases, want = [], {}
+        for i in range(ctx.n(400, 4000) * budget_scale):
+            doc, text, spec, cur = gen_chain(g)
+            names = [r.choice(['twice', 'wrap', 'tn', 'fstr', 'fstr', 'id', 'id', 'fail'] if r.random() < 0.3 else ['twice', 'wrap', 'fstr', 'id'])
+                     for _ in range(r.randint(1, 3))]
+            calls, outs = [], []
+            for v in cur:
+                x = v
+                for nm in names:
+                    calls.append('F(%s,%s)' % (nm, core.doc_render(x)))
+                    x = apply(nm, x)
+                    if x is None:
+                        break
+                if x is not None:
+                    outs.append(x)
+            text += ''.join('.%s()' % nm for nm in names)
+            regs = sorted(set(names) | ({r.choice(gens.FILTER_FUNCS)} if r.random() < 0.3 else set()))
+            c = Case('ft%d' % i, text.encode('utf-8'), [doc], regs, [r.choice(gens.AGG_FUNCS)] if r.random() < 0.2 else [], r.random() < 0.15,
+                     meta={'family': 'coq-chain-fun-path', 'nsteps': len(spec), 'fs': names})
+            c.keyc = spec
+            c.keyf = [[ord(ch) for ch in nm] for nm in names]
+            want[c.id] = (calls, outs, bool(cur))
+            cases.append(c)
+        go, mo = both_sides(cases)
+        for c, g_, m in zip(cases, go, mo):
+            res.evaluations += 1
+            hp = harness_problem(g_) or harness_problem(m)
+            if hp:
+                res.violation('broken-correspondence', 'harness:' + hp[:60], hp, c)
+                continue
+            if m.get('KP') != '1':
+                res.violation('broken-correspondence', 'harness:chain_fun_path', 'the path sent is not Coq chain_fun_path of its steps and functions', c)
+                continue
+            pg = {k: v for k, v in g_.items() if k[0] in 'RC'}
+            pm = {k: v for k, v in m.items() if k[0] in 'RC'}
+            if pg != pm or pclass(g_.get('P', '')) != pclass(m.get('P', '')):
+                res.disagreements_checked += 1
+                res.violation('concrete', sig_of(c, 'calls-vs-model'), 'function calls / results of %r differ from the model' % (c.path,), c,
+                              expected=pm, observed=pg)
+            calls, outs, reached = want[c.id]
+            got = split_calls(g_.get('C0', ''))
+            r0 = g_.get('R0', '')
+            if got != calls:
+                res.violation('concrete', sig_of(c, 'calls-from-text'),
+                              'the functions after %r must be called, for each value the steps reach in order, left to right until one fails' % (c.path,), c,
+                              expected=calls, observed=got)
+            if outs:
+                vals = values_of(r0) if r0.startswith('ok:') else None
+                if c.acc:
+                    ok_ = r0.startswith('ok:') and len(vals) == len(outs)
+                else:
+                    ok_ = vals == [core.doc_render(v) for v in outs]
+                if not ok_:
+                    res.violation('concrete', sig_of(c, 'results-from-text'), 'the results of %r are the functions applied to each value reached' % (c.path,), c,
+                                  expected=[core.doc_render(v) for v in outs], observed=r0)
+            else:
+                if r0.startswith('ok:') or (reached and cls_of(r0) != 'ff'):
+                    res.violation('concrete', sig_of(c, 'failure-from-text'), 'every branch of %r failed in a function: FunctionFailed expected' % (c.path,), c,
+                                  expected='ff' if reached else 'fail', observed=r0)
+            if len(calls) >= 2:
+                res.nontrivial.add((c.path, core.doc_render(c.docs[0])))
+            res.dist['text:' + cls_of(r0 or 'P')] += 1
 
     def replay(self, ctx, res, v):
         replay_generic(self, ctx, res, v, lambda o, c: {k: x for k, x in o.items() if k[0] in 'RC'}, 'calls')
